@@ -6,12 +6,17 @@ import (
 	"encoding/hex"
 	"encoding/json"
 	"fmt"
+	"io"
 	"os"
 	"os/exec"
+	"path/filepath"
 	"time"
 
 	abci "github.com/tendermint/tendermint/abci/types"
 	dbm "github.com/tendermint/tm-db"
+
+	mtypes "github.com/ovrclk/akash/x/market/types"
+	ptypes "github.com/ovrclk/akash/x/provider/types"
 
 	"verifsim/core"
 )
@@ -38,6 +43,20 @@ func (cs *checkerSet) c07Tx(c *TxCtx) *core.Violation {
 		}
 	}
 	cs.txHashes = append(cs.txHashes, resHash(c.All[0]))
+	if m, ok := c.Op.Msg.(*ptypes.MsgUpdateProvider); ok {
+		n := 0
+		for _, l := range c.Before.Leases {
+			if l.LeaseID.Provider == m.Owner && l.State == mtypes.LeaseActive {
+				n++
+			}
+		}
+		if n >= 2 {
+			r.Count("probe:update-provider-with-2+-active-leases")
+			if !c.OK {
+				r.Count("probe:update-provider-with-2+-active-leases-rejected")
+			}
+		}
+	}
 	if c.OK {
 		switch c.Op.Kind {
 		case "SignProviderAttributes":
@@ -98,7 +117,11 @@ type ReexecOutput struct {
 
 // Reexec is run in a separate OS process: boots a fresh application from the genesis and applies
 // the recorded blocks.
-func Reexec(path string) int {
+func Reexec(path string) int { return ReexecTo(path, os.Stdout) }
+
+// ReexecTo is Reexec with the result written to out (the skewed-clock child is a test binary whose
+// standard output carries the testing package's own lines).
+func ReexecTo(path string, out0 io.Writer) int {
 	b, err := os.ReadFile(path)
 	if err != nil {
 		fmt.Fprintln(os.Stderr, err)
@@ -134,7 +157,7 @@ func Reexec(path string) int {
 		out.AppHashes = append(out.AppHashes, hex.EncodeToString(rep.App.Commit().Data))
 	}
 	ob, _ := json.Marshal(out)
-	os.Stdout.Write(ob)
+	out0.Write(ob)
 	return 0
 }
 
@@ -160,14 +183,39 @@ func (cs *checkerSet) crossProcess(w *World) *core.Violation {
 	defer os.Remove(f.Name())
 	f.Write(b)
 	f.Close()
-	cmd := exec.Command(os.Args[0], "-reexec", f.Name())
+	// the child's wall clock: the real one, or (clock-skew fault) a simulated one set to 2000-01-01 plus
+	// a drawn number of years - a node replaying the history at another time, or with a wrong clock
+	skewYears := []int{0, 0, 3, 11, 23, 26, 27, 30, 45, 95}[r.Choose(10, "c07.child-clock")]
 	var stdout, stderr bytes.Buffer
-	cmd.Stdout, cmd.Stderr = &stdout, &stderr
-	if err := cmd.Run(); err != nil {
-		panic(fmt.Sprintf("re-execution child failed: %v\n%s", err, stderr.String()))
+	var outBytes []byte
+	if skewYears == 0 {
+		cmd := exec.Command(os.Args[0], "-reexec", f.Name())
+		cmd.Stdout, cmd.Stderr = &stdout, &stderr
+		if err := cmd.Run(); err != nil {
+			panic(fmt.Sprintf("re-execution child failed: %v\n%s", err, stderr.String()))
+		}
+		outBytes = stdout.Bytes()
+	} else {
+		bin := filepath.Join(filepath.Dir(os.Args[0]), "chainsim.test")
+		of := f.Name() + ".out"
+		defer os.Remove(of)
+		cmd := exec.Command(bin, "-test.run=^TestReexecSkewed$", "-test.count=1")
+		cmd.Env = append(os.Environ(), "VERIF_REEXEC_FILE="+f.Name(), "VERIF_REEXEC_OUT="+of, fmt.Sprintf("VERIF_REEXEC_SKEW_YEARS=%d", skewYears))
+		cmd.Stdout, cmd.Stderr = &stdout, &stderr
+		if err := cmd.Run(); err != nil {
+			panic(fmt.Sprintf("skewed-clock re-execution child failed: %v\n%s\n%s", err, stdout.String(), stderr.String()))
+		}
+		if outBytes, err = os.ReadFile(of); err != nil {
+			panic(fmt.Sprintf("skewed-clock re-execution child wrote no result: %v\n%s", err, stdout.String()))
+		}
+		r.Count("fault:child-wall-clock-skewed")
+	}
+	clockDesc := ""
+	if skewYears != 0 {
+		clockDesc = fmt.Sprintf(", wall clock set to the year %d", 2000+skewYears)
 	}
 	var out ReexecOutput
-	if err := json.Unmarshal(stdout.Bytes(), &out); err != nil {
+	if err := json.Unmarshal(outBytes, &out); err != nil {
 		panic(fmt.Sprintf("re-execution child output: %v", err))
 	}
 	r.Count("probe:cross-process-reexecutions")
@@ -176,12 +224,12 @@ func (cs *checkerSet) crossProcess(w *World) *core.Violation {
 	}
 	for i := range out.TxHashes {
 		if out.TxHashes[i] != mineTx[i] {
-			return r.Flag("C07/cross-process-tx-result", "transaction #%d: result differs between this process and a fresh process executing the same history (child started from %s)", skipTx+i+1, startDesc(in))
+			return r.Flag("C07/cross-process-tx-result", "transaction #%d: result differs between this process and a fresh process executing the same history (child started from %s%s)", skipTx+i+1, startDesc(in), clockDesc)
 		}
 	}
 	for i := range out.AppHashes {
 		if out.AppHashes[i] != mineApp[i] {
-			return r.Flag("C07/cross-process-apphash", "block %d (height %d): app hash differs between this process and a fresh process executing the same history (child started from %s)", in.From+i, w.BlockLog[in.From+i].Height, startDesc(in))
+			return r.Flag("C07/cross-process-apphash", "block %d (height %d): app hash differs between this process and a fresh process executing the same history (child started from %s%s)", in.From+i, w.BlockLog[in.From+i].Height, startDesc(in), clockDesc)
 		}
 	}
 	return nil
